@@ -676,6 +676,15 @@ pub fn behavior(w: &Walker, root_text: &str) -> Result<WalkBehavior, String> {
         Depth::Bounded(a, b) => {
             DepthBehavior::bounded(a, b).ok_or_else(|| "DepthBehavior::bounded is None".to_string())?
         },
+        Depth::AtVariance(a, b, _) => {
+            let Source::Glob { expr, rooted } = &w.source
+            else {
+                return Err("bounded_at_depth_variance needs a glob".to_string());
+            };
+            let glob = Glob::new(&glob_text(expr, *rooted, root_text)).map_err(|e| e.to_string())?.into_owned();
+            DepthBehavior::bounded_at_depth_variance(a, b, wax::Program::depth(&glob))
+                .ok_or_else(|| "DepthBehavior::bounded_at_depth_variance is None".to_string())?
+        },
     };
     let link = match w.link {
         Link::ReadFile => LinkBehavior::ReadFile,
